@@ -14,6 +14,7 @@ inductive Op where
   | die (pid status : Nat)                  -- a process exits by itself (wait status)
   | xkill (pid sig : Nat)                   -- a signal from outside
   | fault (k pid status : Nat)              -- arm: before kernel call k of the next step pid dies
+  | sockev (ready : Bool)                   -- a client connects to / is accepted from a managed socket
   deriving Repr, Inhabited
 
 def quitMsg : JVal := .obj [("command", .str "quit"), ("properties", .obj [])]
@@ -62,6 +63,7 @@ def stepOp : Op → M Unit
   | .die pid st => updK fun k => k.die pid st
   | .xkill pid sig => do let _ ← kKill pid sig "x"
   | .fault n pid st => updK fun k => k.addFault n pid st
+  | .sockev b => setSockReady b
 
 /-- the loop runs until nothing is ready; a stopped loop makes `Arbiter.start` close everything -/
 def stepTail : M Unit := do
